@@ -206,7 +206,8 @@ def _expression_as_string(expression: list[TokenT]) -> str:
         else:
             buf.append(f" {token}")
 
-    return "".join(buf).strip()
+    # Only the spaces added here. Unicode white space can be part of a name.
+    return "".join(buf).strip(" ")
 
 
 def _tag_as_line_statement(markup: TagToken | CommentToken) -> str:
